@@ -91,6 +91,11 @@ func genC03(g *gen, tier string) *Scenario {
 				case "jump":
 					ops = append(ops, Op{Kind: "advance", Dur: pick(g, 2*sec, 20*sec, 31*sec, 45*sec, 90*sec, 3600*sec)})
 				case "restart":
+					if c != 0 {
+						// one operator: restarts do not overlap each other
+						ops = append(ops, Op{Kind: "get", Key: g.n(nkeys)})
+						break
+					}
 					// SaveCache, Close, downtime that ends around a pending deadline, a new cache, LoadCache:
 					// restored values keep their wall-clock deadlines, whatever the other clients are doing
 					d := int64(g.rng(0, 3000)) * ms
@@ -208,14 +213,19 @@ func checkC03(rd *RunData) []Violation {
 		if stale >= 30*sec {
 			cls = "cached-clock-stale>=30s"
 		}
-		for _, rs := range rd.Restarts {
-			// a cache that was built less than 30 s before the read cannot have a cached clock that
-			// nobody refreshed for 30 s: whatever the numbers say, this is not the known finding
-			if rs.DoneSeq < r.Inv && r.InvT-rs.LoadT < 30*sec && r.InvT >= rs.LoadT {
-				cls = "clock-fresh,cache-restored<30s-ago"
-				if _, ok := rd.restoredVal(rs, v); ok {
-					cls += ",restored-value"
-				}
+		// the cache in use is the one that was published last before the read
+		var cur *RestartRec
+		for i := range rd.Restarts {
+			if rs := &rd.Restarts[i]; rs.DoneSeq < r.Inv && (cur == nil || rs.DoneSeq > cur.DoneSeq) {
+				cur = rs
+			}
+		}
+		// a cache that was built less than 30 s before the read cannot have a cached clock that
+		// nobody refreshed for 30 s: whatever the numbers say, this is not the known finding
+		if cur != nil && r.InvT-cur.LoadT < 30*sec && r.InvT >= cur.LoadT {
+			cls = "clock-fresh,cache-restored<30s-ago"
+			if _, ok := rd.restoredVal(*cur, v); ok {
+				cls += ",restored-value"
 			}
 		}
 		vs = append(vs, Violation{"C03/served-after-deadline/" + r.Op.Kind + "," + cls,
